@@ -116,7 +116,14 @@ class Builder:
             o = ox.Parameter(name, d["val"])
             self.params[name] = o
         elif k == "vpar":
-            o = ox.VectorParameter(name, len(d["vals"]), list(d["vals"]))
+            vals_ = list(d["vals"])
+            # the user's data in another container / dtype (same numbers): a list of Python ints, an integer array, float32
+            as_ = d.get("as")
+            if as_ in ("int-list", "int-array") and all(float(v).is_integer() for v in vals_):
+                vals_ = [int(v) for v in vals_] if as_ == "int-list" else np.array([int(v) for v in vals_])
+            elif as_ == "float32-array" and all(float(np.float32(v)) == float(v) for v in vals_):
+                vals_ = np.array(vals_, dtype=np.float32)
+            o = ox.VectorParameter(name, len(d["vals"]), vals_)
             for i in range(len(d["vals"])):
                 self.params[f"{name}[{i}]"] = o[i]
         elif k == "mpar":
